@@ -56,7 +56,21 @@ def enc (v : JVal) : String := render (ofJVal v)
 
 def optStr (j : J) (k : String) : Option String := (j.getD k).str?
 
-/-- {"op":"run","api":{"ver","kind","plural","namespaced"},"name","ns","flags":{"readonly","owned",
+/-- a CEL value with typed keys on the wire: {"plain": val} | {"map": [[{"t": s} | {"b": base64}, cval] …]} -/
+partial def toCVal (j : J) : Except String Koreo.Identity.CVal := do
+  match j with
+  | .obj [("plain", v)] => pure (.plain (← toJVal v))
+  | .obj [("map", .arr es)] =>
+    let kvs ← es.mapM fun e => do
+      match e with
+      | .arr [.obj [("t", .str s)], c] => pure (Koreo.Identity.CKey.text s, ← toCVal c)
+      | .arr [.obj [("b", .str s)], c] => pure (Koreo.Identity.CKey.bytes s, ← toCVal c)
+      | _ => throw "bad map entry"
+    pure (.map kvs)
+  | _ => throw "bad cval"
+
+/-- {"op":"convertPin","c":cval,"ver","kind","name","ns":str|null} → {"converted": val, "pinned": val}
+    {"op":"run","api":{"ver","kind","plural","namespaced"},"name","ns","flags":{"readonly","owned",
      "createEnabled","deleteIfExists","policy"},"tmpl","steps":[…],"createOv":Ov|null,
      "owner":{"ns","ref"},"stored":val|null,"defNs","precond"}
     → {"expected": val|null, "ifMatch": run, "ifDrift": run} -/
@@ -87,6 +101,11 @@ def handle (j : J) : Except String J := do
     pure (.obj [("expected", optJ expected),
                 ("ifMatch", ofRun (reconcile enc defNs (fun _ _ => true) pp rf owner stored)),
                 ("ifDrift", ofRun (reconcile enc defNs (fun _ _ => false) pp rf owner stored))])
+  | "convertPin" =>
+    let c ← toCVal (j.getD "c")
+    let t : Target := ⟨← j.getStr "ver", ← j.getStr "kind", ← j.getStr "name", (j.getD "ns").str?⟩
+    let v := Koreo.Identity.convert c
+    pure (.obj [("converted", ofJVal v), ("pinned", ofJVal (Koreo.Identity.pinIdentity t v))])
   | op => throw s!"bad op {op}"
 
 end Koreo.Driver.Rf678
